@@ -647,13 +647,19 @@ func (o *opCtx) exec(kind, k int) string {
 			rng.Read(buf)
 			var a, b2, c3 fr.Element
 			snapB := append([]byte(nil), buf...)
-			a.SetBytes(buf)
-			b2.SetBytesLE(buf)
-			_, err := c3.SetBytesLECanonical(buf)
-			if !bytes.Equal(buf, snapB) {
-				o.modified("input-modified/fr-decoders", "a scalar decoder changed the caller's byte slice")
-				copy(buf, snapB)
+			chk := func(name string) {
+				// after every single call (two in-place reversals would cancel each other)
+				if !bytes.Equal(buf, snapB) {
+					o.modified("input-modified/fr-decoders/"+name, fmt.Sprintf("%s changed the caller's %d-byte slice", name, len(buf)))
+					copy(buf, snapB)
+				}
 			}
+			a.SetBytes(buf)
+			chk("SetBytes")
+			b2.SetBytesLE(buf)
+			chk("SetBytesLE")
+			_, err := c3.SetBytesLECanonical(buf)
+			chk("SetBytesLECanonical")
 			d.addf("%s %s %v", a.String(), b2.String(), err != nil)
 			var e fr.Element
 			e.SetString(a.String())
